@@ -283,6 +283,92 @@ def _use(ck, camp, kind, inp, cls, code, defs, names):
 
 
 # ---------------------------------------------------------------------------------------------
+# shrinking the failing document that becomes the replay (delta debugging over definitions and members)
+class _Probe:
+    """just enough of Check / Campaign for dups_case"""
+
+    def __init__(self):
+        self.failures, self.evaluations, self.unmodelled = [], 0, 0
+        self.distinct, self.samples = set(), [None, None]
+
+    def fail(self, classification, input_, observed, expected=""):
+        self.failures.append((classification, input_, observed))
+        return True
+
+    def hit(self, key, n=1):
+        pass
+
+
+def _still_fails(case: dict, kind: str, mechanism: str):
+    pr = _Probe()
+    dups_case(pr, pr, case, kind)
+    return pr.failures[0] if pr.failures and pr.failures[0][0]["mechanism"] == mechanism else None
+
+
+def _referenced(defs: dict, key: str) -> bool:
+    return (REF + key) in {x for k, b in defs.items() if k != key for x in _refs(b)}
+
+
+def _refs(x):
+    if isinstance(x, dict):
+        for k, v in x.items():
+            if k == "$ref" and isinstance(v, str):
+                yield v
+            else:
+                yield from _refs(v)
+    elif isinstance(x, list):
+        for v in x:
+            yield from _refs(v)
+
+
+def shrink_first(ck) -> None:
+    """when the first oracle failure of the run is a document of this family: drop unreferenced definitions and members
+    as long as the SAME mechanism still fails; the smaller document becomes the replay"""
+    if len(ck.failures) != 1 or not isinstance(ck.failures[0].input, dict) or ck.failures[0].input.get("target") != "e2e-dups":
+        return
+    f = ck.failures[0]
+    kind, mech = f.input["kind"], f.classification["mechanism"]
+    case = {"doc": copy.deepcopy(f.input["doc"]), "expect": copy.deepcopy(f.input["expect"]), "opts": dict(f.input["opts"])}
+    best = None
+    for _round in range(3):
+        changed = False
+        defs = case["doc"]["definitions"]
+        for key in list(defs):
+            if _referenced(defs, key):
+                continue
+            cand = {"doc": {**case["doc"], "definitions": {k: v for k, v in defs.items() if k != key}},
+                    "expect": [g2 for g2 in ([x for x in g if x != key] for g in case["expect"]) if g2], "opts": case["opts"]}
+            got = _still_fails(cand, kind, mech)
+            if got:
+                case, best, changed = cand, got, True
+                defs = case["doc"]["definitions"]
+        for key in list(defs):
+            body = defs[key]
+            objs = [body] if "properties" in body else [b for b in body.get("allOf", []) if isinstance(b, dict) and "properties" in b]
+            for o in objs:
+                for pname in list(o["properties"]):
+                    if len(o["properties"]) == 1:
+                        break
+                    cand = copy.deepcopy(case)
+                    cb = cand["doc"]["definitions"][key]
+                    co = cb if "properties" in cb else [b for b in cb["allOf"] if isinstance(b, dict) and "properties" in b][0]
+                    del co["properties"][pname]
+                    got = _still_fails(cand, kind, mech)
+                    if got:
+                        case, best, changed = cand, got, True
+                        defs = case["doc"]["definitions"]
+                        o = co
+        for opt in list(case["opts"]):
+            cand = {**case, "opts": {k: v for k, v in case["opts"].items() if k != opt}}
+            got = _still_fails(cand, kind, mech)
+            if got:
+                case, best, changed = cand, got, True
+        if not changed:
+            break
+    if best is not None:
+        f.classification, f.input, f.observed = best
+
+
 CORPUS: list[dict] = []
 
 
@@ -293,6 +379,7 @@ def campaign_dups(ck, n_docs: int) -> None:
 
     t0 = time.time()
     rng = ck.rng.fork("e2e-dups")
+    shrunk = bool(ck.failures)
     for case in CORPUS:
         for kind in KINDS:
             dups_case(ck, camp, case, kind)
@@ -300,6 +387,9 @@ def campaign_dups(ck, n_docs: int) -> None:
         case = dup_doc(rng, (None, "keep", "users", "reuse")[i % 4])
         for kind in (KINDS if i % 8 == 1 else [KINDS[0], rng.choice(KINDS[1:])] if i % 2 == 0 else [rng.choice(KINDS)]):
             dups_case(ck, camp, case, kind)
+            if len(ck.failures) == 1 and not shrunk:
+                shrunk = True
+                shrink_first(ck)
     camp.wall_s = time.time() - t0
 
 
@@ -318,6 +408,7 @@ def search_dups(ck) -> None:
         for kind in (KINDS[0], KINDS[2]) if i % 2 else (KINDS[0], KINDS[1]):
             dups_case(ck, camp, case, kind)
             if ck.failures:
+                shrink_first(ck)
                 return
 
 
